@@ -59,6 +59,10 @@ class Session:
         self.seen_packets_server = []
         self.seen_packets_client = []
 
+        # next expected sequence number per direction (None until records have been delivered)
+        self.server_next_seq = None
+        self.client_next_seq = None
+
         self.can_decrypt = False
         self.client_hello_seen = False
         self.tls_version = None
@@ -506,10 +510,21 @@ class Session:
     def extract_server_buf(self):
         """Extracts packets from session which together contain complete TLS_Records"""
         self.server_counter += 1
-        self.server_packet_buffer.sort(key=lambda x: x.seq)
+        base = self.server_next_seq
+        if base is None:
+            # nothing delivered yet: the stream starts at the earliest segment seen so far
+            # (signed distance, the sequence space wraps at 2^32)
+            first = self.server_packet_buffer[0].seq
+            base = min(self.server_packet_buffer, key=lambda x: (x.seq - first + 2 ** 31) % 2 ** 32).seq
+        # order the segments by their distance from the next expected sequence number
+        self.server_packet_buffer.sort(key=lambda x: (x.seq - base) % 2 ** 32)
+
+        if self.server_packet_buffer[0].seq != base:
+            # the segment that continues the stream is still missing
+            return
 
         for i in range(0, len(self.server_packet_buffer) - 1):
-            if self.server_packet_buffer[i].seq + len(self.server_packet_buffer[i].tls_data) != \
+            if (self.server_packet_buffer[i].seq + len(self.server_packet_buffer[i].tls_data)) % 2 ** 32 != \
                     self.server_packet_buffer[i + 1].seq:
                 # need more packets (missing packets)
                 return
@@ -554,15 +569,27 @@ class Session:
                 self.server_tls_records.append(tls_record)
 
                 index += record_len
+            self.server_next_seq = (base + total_packet_len) % 2 ** 32
             self.server_packet_buffer.clear()
 
     def extract_client_buf(self):
         """Extracts packets from session which together contain complete TLS_Records"""
         self.client_counter += 1
-        self.client_packet_buffer.sort(key=lambda x: x.seq)
+        base = self.client_next_seq
+        if base is None:
+            # nothing delivered yet: the stream starts at the earliest segment seen so far
+            # (signed distance, the sequence space wraps at 2^32)
+            first = self.client_packet_buffer[0].seq
+            base = min(self.client_packet_buffer, key=lambda x: (x.seq - first + 2 ** 31) % 2 ** 32).seq
+        # order the segments by their distance from the next expected sequence number
+        self.client_packet_buffer.sort(key=lambda x: (x.seq - base) % 2 ** 32)
+
+        if self.client_packet_buffer[0].seq != base:
+            # the segment that continues the stream is still missing
+            return
 
         for i in range(0, len(self.client_packet_buffer) - 1):
-            if self.client_packet_buffer[i].seq + len(self.client_packet_buffer[i].tls_data) != \
+            if (self.client_packet_buffer[i].seq + len(self.client_packet_buffer[i].tls_data)) % 2 ** 32 != \
                     self.client_packet_buffer[i + 1].seq:
                 # need more packets (missing packets)
                 return
@@ -607,4 +634,5 @@ class Session:
                 self.client_tls_records.append(tls_record)
 
                 index += record_len
+            self.client_next_seq = (base + total_packet_len) % 2 ** 32
             self.client_packet_buffer.clear()
